@@ -87,6 +87,9 @@ Proof.
   destruct a; [|congruence|congruence]. destruct (jseq_list r); congruence.
 Qed.
 
+Lemma jseq_map_eq {A} (f : A -> jres) l : jseq_map f l = jseq_list (map f l).
+Proof. induction l as [|a r IH]; simpl; [reflexivity|]. rewrite IH. destruct (f a); reflexivity. Qed.
+
 (* every node of the tree satisfies P *)
 Inductive AllN (P : nat -> Prop) : tree -> Prop :=
 | AllN_node n c kids : P n -> Forall (AllN P) kids -> AllN P (Node n c kids).
@@ -163,7 +166,7 @@ Proof.
   intros Hre. induction t as [m c kids IH] using tree_ind'. intros d A. inversion A; subst.
   cbn [marshal_node]. destruct (is_errdef g m) eqn:Em.
   - apply jcons_fin. apply Hre; assumption.
-  - apply jcons_fin, jseq_list_fin. rewrite Forall_forall in *. intros r Hin.
+  - apply jcons_fin. rewrite jseq_map_eq. apply jseq_list_fin. rewrite Forall_forall in *. intros r Hin.
     apply in_map_iff in Hin as [t [<- Hin]]. apply IH; auto.
 Qed.
 
@@ -171,7 +174,7 @@ Lemma marshal_nodes_fin g re (P : nat -> Prop) :
   (forall m d, P m -> is_errdef g m = true -> fin (re m d)) ->
   forall ts d, Forall (AllN P) ts -> fin (marshal_nodes g re d ts).
 Proof.
-  intros Hre ts d A. unfold marshal_nodes. apply jseq_list_fin. rewrite Forall_forall in *.
+  intros Hre ts d A. unfold marshal_nodes. rewrite jseq_map_eq. apply jseq_list_fin. rewrite Forall_forall in *.
   intros r Hin. apply in_map_iff in Hin as [t [<- Hin]]. eapply marshal_node_fin; eauto.
 Qed.
 
@@ -237,7 +240,7 @@ Proof.
   intros Hre. induction t as [m c kids IH] using tree_ind'. intros d F. cbn [marshal_node] in *.
   destruct (is_errdef g m).
   - rewrite Hre; [reflexivity|]. eapply jcons_fin_inv. exact F.
-  - f_equal. apply jseq_list_mono; [|eapply jcons_fin_inv; exact F].
+  - f_equal. rewrite !jseq_map_eq in *. apply jseq_list_mono; [|eapply jcons_fin_inv; exact F].
     apply Forall2_map_same. intros t Hin. rewrite Forall_forall in IH. apply IH. exact Hin.
 Qed.
 
@@ -247,7 +250,7 @@ Proof.
   induction f as [|f IH]; intros n d F f' Hle; [exfalso; apply F; reflexivity|].
   destruct f' as [|f']; [lia|]. cbn [marshal_err] in *.
   destruct (inb n bad); [reflexivity|]. destruct (unwrap_tree g n) as [ts|]; [|reflexivity].
-  unfold marshal_nodes in *. apply jseq_list_mono; [|exact F].
+  unfold marshal_nodes in *. rewrite !jseq_map_eq in *. apply jseq_list_mono; [|exact F].
   apply Forall2_map_same. intros t _. apply marshal_node_mono.
   intros m d' F'. apply IH; [exact F'|lia].
 Qed.
@@ -275,7 +278,7 @@ Lemma marshal_node_nofail g re : (forall m d, re m d <> JFail) -> forall t d, ma
 Proof.
   intros Hre. induction t as [m c kids IH] using tree_ind'. intros d. cbn [marshal_node].
   destruct (is_errdef g m); apply jcons_nofail; [apply Hre|].
-  apply jseq_list_nofail. rewrite Forall_forall in *. intros r Hin.
+  rewrite jseq_map_eq. apply jseq_list_nofail. rewrite Forall_forall in *. intros r Hin.
   apply in_map_iff in Hin as [t [<- Hin]]. apply IH. exact Hin.
 Qed.
 
@@ -283,7 +286,7 @@ Lemma marshal_err_nofail g : forall f n d, marshal_err f g [] n d <> JFail.
 Proof.
   induction f as [|f IH]; intros n d; cbn [marshal_err]; [congruence|].
   cbn [inb existsb]. destruct (unwrap_tree g n) as [ts|]; [|congruence].
-  unfold marshal_nodes. apply jseq_list_nofail. rewrite Forall_forall. intros r Hin.
+  unfold marshal_nodes. rewrite jseq_map_eq. apply jseq_list_nofail. rewrite Forall_forall. intros r Hin.
   apply in_map_iff in Hin as [t [<- Hin]]. apply marshal_node_nofail. exact IH.
 Qed.
 
@@ -299,9 +302,9 @@ Proof.
   unfold marshal_g. assert (H : forall fuel d, marshal_err fuel g_k1 [] 1 d = JOut).
   { induction fuel as [|f IH]; intros d; [reflexivity|].
     cbn [marshal_err inb existsb]. rewrite k1_tree.
-    cbn [marshal_nodes map marshal_node jseq_list]. 
+    cbn [marshal_nodes jseq_map marshal_node].
     change (is_errdef g_k1 0) with false. change (is_errdef g_k1 1) with true. cbv iota.
-    cbn [map marshal_node]. change (is_errdef g_k1 1) with true. cbv iota.
+    cbn [jseq_map marshal_node]. change (is_errdef g_k1 1) with true. cbv iota.
     rewrite IH. reflexivity. }
   intros fuel. apply H.
 Qed.
@@ -318,7 +321,7 @@ Lemma gs_walk_fin g inl rk : closed g -> inline_ranked g inl rk ->
 Proof.
   intros Hcl Hr. induction f as [|f IH]; intros n Hrk Hn Hin; cbn [gs_walk];
     (destruct (nth_error g n) as [nd|] eqn:En; [|apply nth_error_None in En; lia]);
-    apply jcons_fin, jseq_list_fin; rewrite Forall_forall; intros r Hr';
+    apply jcons_fin; rewrite jseq_map_eq; apply jseq_list_fin; rewrite Forall_forall; intros r Hr';
     apply in_map_iff in Hr' as [[c|] [<- Hc]]; try (unfold fin; congruence);
     (destruct (inb c inl) eqn:Ec; [|unfold fin; congruence]);
     pose proof (Hr n nd c En Hin Hc Ec) as Hlt.
@@ -332,7 +335,7 @@ Proof.
   induction f as [|f IH]; intros n F f' Hle; [exfalso; apply F; reflexivity|].
   destruct f' as [|f']; [lia|]. cbn [gs_walk] in *.
   destruct (nth_error g n) as [nd|]; [|reflexivity].
-  f_equal. apply jseq_list_mono; [|eapply jcons_fin_inv; exact F].
+  f_equal. rewrite !jseq_map_eq in *. apply jseq_list_mono; [|eapply jcons_fin_inv; exact F].
   apply Forall2_map_same. intros [c|] _; [|reflexivity].
   destruct (inb c inl); [|reflexivity]. intros F'. apply IH; [exact F'|lia].
 Qed.
@@ -344,14 +347,14 @@ Proof.
   intros Hcl Hr Hd fuel Hf.
   assert (F : fin (gostring_g fuel g inl direct) /\ gostring_g fuel g inl direct <> JFail).
   { unfold gostring_g. split.
-    - apply jseq_list_fin. rewrite Forall_forall. intros r Hin.
+    - rewrite jseq_map_eq. apply jseq_list_fin. rewrite Forall_forall. intros r Hin.
       apply in_map_iff in Hin as [c [<- Hc]]. destruct (inb c inl) eqn:Ec; [|unfold fin; congruence].
       specialize (Hf c Hc). destruct fuel as [|f]; [lia|].
       apply (gs_walk_fin g inl rk Hcl Hr); [lia|auto|exact Ec].
-    - apply jseq_list_nofail. rewrite Forall_forall. intros r Hin.
+    - rewrite jseq_map_eq. apply jseq_list_nofail. rewrite Forall_forall. intros r Hin.
       apply in_map_iff in Hin as [c [<- Hc]]. destruct (inb c inl); [|congruence].
       clear. revert c. induction fuel as [|f IH]; intros c; cbn [gs_walk]; [congruence|].
-      destruct (nth_error g c) as [nd|]; [|congruence]. apply jcons_nofail, jseq_list_nofail.
+      destruct (nth_error g c) as [nd|]; [|congruence]. apply jcons_nofail; rewrite jseq_map_eq; apply jseq_list_nofail.
       rewrite Forall_forall. intros r Hin. apply in_map_iff in Hin as [[c'|] [<- _]]; [|congruence].
       destruct (inb c' inl); [apply IH|congruence]. }
   destruct F as [F1 F2]. unfold fin in F1. destruct (gostring_g fuel g inl direct); [eauto|congruence|congruence].
@@ -365,9 +368,9 @@ Lemma gostring_diverges :
 Proof.
   split; [apply Gb_sound; vm_compute; reflexivity|]. split; [eexists; vm_compute; reflexivity|].
   assert (H : forall fuel, gs_walk fuel g_k7 [0] 0 = JOut).
-  { induction fuel as [|f IH]; [reflexivity|]. cbn [gs_walk g_k7 nth_error causes_of g_unwrap gp map inb existsb Nat.eqb orb].
+  { induction fuel as [|f IH]; [reflexivity|]. cbn [gs_walk g_k7 nth_error causes_of g_unwrap gp jseq_map inb existsb Nat.eqb orb].
     rewrite IH. reflexivity. }
-  intros fuel. unfold gostring_g. cbn [map inb existsb Nat.eqb orb]. rewrite H. reflexivity.
+  intros fuel. unfold gostring_g. cbn [jseq_map inb existsb Nat.eqb orb]. rewrite H. reflexivity.
 Qed.
 (* ====================================================================== *)
 (* 4. the source-snippet reader                                            *)
@@ -519,13 +522,13 @@ Proof. eexists. vm_compute. reflexivity. Qed.
 Lemma gs_walk_nofail g inl : forall fuel c, gs_walk fuel g inl c <> JFail.
 Proof.
   induction fuel as [|f IH]; intros c; cbn [gs_walk]; [congruence|].
-  destruct (nth_error g c) as [nd|]; [|congruence]. apply jcons_nofail, jseq_list_nofail.
+  destruct (nth_error g c) as [nd|]; [|congruence]. apply jcons_nofail; rewrite jseq_map_eq; apply jseq_list_nofail.
   rewrite Forall_forall. intros r Hin. apply in_map_iff in Hin as [[c'|] [<- _]]; [|congruence].
   destruct (inb c' inl); [apply IH|congruence].
 Qed.
 Lemma gostring_nofail fuel g inl direct : gostring_g fuel g inl direct <> JFail.
 Proof.
-  unfold gostring_g. apply jseq_list_nofail. rewrite Forall_forall. intros r Hin.
+  unfold gostring_g. rewrite jseq_map_eq. apply jseq_list_nofail. rewrite Forall_forall. intros r Hin.
   apply in_map_iff in Hin as [c [<- _]]. destruct (inb c inl); [apply gs_walk_nofail|congruence].
 Qed.
 
